@@ -121,8 +121,11 @@ ExpOf(p, kind) ==
 \* its in-flight count (DoCount is then a step of its own).
 SendAs(p, kind, pol, via, hold, refused) ==
   LET id == Len(msgs) + 1
-      \* ack policy NONE otherwise / no ack inbox: fire and forget
-      answered == pol = "none" \/ via \in Silent
+      \* ack policy NONE otherwise: fire and forget, the call returns at once.  (A publisher without
+      \* ack inbox never gets an answer; its message counts as "noack" from the moment the leader
+      \* has judged it - on recorded rounds: from the answer to a later publish over the same
+      \* connection, the fence.)
+      answered == pol = "none" /\ via \notin Silent
       session == via = "api" /\ cfg.path = "async" /\ pol # "none" /\ ~refused IN
   /\ via # "api" => ~paused
   \* publishLoop is one goroutine: it takes the next request after the count
@@ -130,7 +133,7 @@ SendAs(p, kind, pol, via, hold, refused) ==
   /\ msgs' = Append(msgs, [p |-> p, exp |-> IF via \in NoExp THEN -1 ELSE ExpOf(p, kind), pol |-> pol,
                            via |-> via, sendT |-> clk,
                            ackT |-> IF answered THEN clk + 1 ELSE Inf,
-                           res |-> IF refused THEN "bad_request" ELSE IF answered THEN "noack" ELSE "pending",
+                           res |-> IF refused THEN "bad_request" ELSE IF answered \/ via \in Silent THEN "noack" ELSE "pending",
                            off |-> -1])
   /\ net' = IF refused THEN net ELSE net \cup {id}
   /\ paused' = IF refused THEN paused ELSE FALSE
@@ -203,23 +206,27 @@ DoProcess(n) ==
          bad  == eocc /\ EffExp(b[1]) # -1 /\ EffExp(b[1]) # base
          \* nobody to answer: ack policy NONE / no ack inbox
          mute(id) == msgs[id].pol = "none" \/ msgs[id].via \in Silent
+         \* a message without ack inbox has been judged now
+         judged(ms) == [id \in DOMAIN ms |-> IF InBatch(b, id) /\ ms[id].via \in Silent
+                                              THEN [ms[id] EXCEPT !.ackT = clk] ELSE ms[id]]
      IN /\ chan' = SubSeq(chan, n + 1, Len(chan))
+        /\ clk' = IF \E i \in 1..n : msgs[b[i]].via \in Silent THEN clk + 1 ELSE clk
         /\ IF bad THEN
              /\ log' = log
              \* (ack policy NONE cannot get here on a stream with concurrency
              \* control - the API refuses it; if it did, the publisher of the
              \* unary RPC has already been answered and nobody reads the ack)
-             /\ msgs' = IF mute(b[1]) THEN msgs
+             /\ msgs' = IF mute(b[1]) THEN judged(msgs)
                         ELSE [msgs EXCEPT ![b[1]].res = "incorrect_offset"]
              /\ ackq' = IF mute(b[1]) THEN ackq ELSE ackq \cup {b[1]}
            ELSE
              /\ log' = log \o Stamped(b, base)
-             /\ msgs' = [id \in DOMAIN msgs |->
+             /\ msgs' = judged([id \in DOMAIN msgs |->
                            IF InBatch(b, id) /\ ~mute(id)
                            THEN [msgs[id] EXCEPT !.res = "ok", !.off = base + IdxIn(b, id) - 1]
-                           ELSE msgs[id]]
+                           ELSE msgs[id]])
              /\ ackq' = ackq \cup {b[i] : i \in {j \in 1..n : ~mute(b[j])}}
-  /\ UNCHANGED <<cfg, net, clk, known, paused, eocc, snap, infl, unc>>
+  /\ UNCHANGED <<cfg, net, known, paused, eocc, snap, infl, unc>>
 
 Quiescent == net = {} /\ chan = <<>> /\ ackq = {} /\ unc = {}
 
@@ -371,12 +378,22 @@ C16_Answered ==
 \* "stored IF it is assigned exactly that offset", for every publisher - with
 \* or without an answer: once nothing is in flight, a conditional publish that
 \* the leader judged and that is not in the log met a log end other than its
-\* expectation.  The log end it met is at least Lo (see above) and at most the
-\* length of the log now; refuted when that window is the single value exp.
+\* expectation.  The log end it met is at least Lo (see above) and at most Hi
+\* when ackT bounds the moment it was judged (an error answer; no answer but a
+\* later publish over the same connection acknowledged: "noanswer", and "noack"
+\* of a publisher without ack inbox), at most the length of the log now
+\* otherwise; refuted when that window is the single value exp.
+\* Where the judgement is known only through the fence ("noanswer", "noack"
+\* without ack inbox) the order of one connection is what tells: a later stored
+\* publish over the same connection was stored after this one was judged.
+Fenced(id) == msgs[id].via \in Silent \/ R(id) = "noanswer"
+JudgedBy(id) == Fenced(id) \/ R(id) = "incorrect_offset"
+HiLine(id) == SetMin({Hi(id)} \cup {OffOf(x) : x \in {y \in Ids : Stored(y) /\ SameLine(y, id) /\ y > id}})
 C16_UnstoredJustified ==
   Quiescent => \A id \in Ids :
-     (Cond(id) /\ ~Stored(id) /\ R(id) \notin {"timeout", "other", "bad_request"})
-        => \E n \in Lo(id)..Len(log) : n # msgs[id].exp
+     (Cond(id) /\ ~Stored(id) /\ R(id) \notin {"timeout", "other", "bad_request", "pending"})
+        => \E n \in Lo(id)..(IF Fenced(id) THEN HiLine(id) ELSE IF JudgedBy(id) THEN Hi(id) ELSE Len(log)) :
+              n # msgs[id].exp
 
 C16_All == /\ C16_Dense /\ C16_Once /\ C16_StoredAtExpected /\ C16_AckOffset /\ C16_RejectNotStored
            /\ C16_RejectJustified /\ C16_WaivedAccepted /\ C16_OneWinner /\ C16_NoneNotSilent /\ C16_Answered
